@@ -54,6 +54,13 @@ type Violation struct {
 	Harness string            `json:"harness"`
 	Pkg     string            `json:"pkg"`
 	Notes   map[string]string `json:"notes,omitempty"`
+	Bounds  map[string]int    `json:"bounds,omitempty"`
+}
+
+// SampleModel is a concrete input of the explored region (a model of a reach witness).
+type SampleModel struct {
+	Reach string
+	Model map[string]uint64
 }
 
 type AssertStat struct {
@@ -77,6 +84,7 @@ type Report struct {
 	Asserts       map[string]*AssertStat
 	Reach         map[string]int
 	Samples       []map[string]string
+	SampleModels  []SampleModel
 	Funcs         map[string]string // function -> "real" | "reference" | "stub" | "lib" | "intrinsic" | "stubbed"
 	MapRangeSites map[string]bool
 	Queries       int
@@ -87,6 +95,7 @@ type Report struct {
 	SolverTime    time.Duration
 	Wall          time.Duration
 	PathCapHit    bool
+	DomDecided    int
 	Notes         map[string]int
 }
 
@@ -277,6 +286,11 @@ type Exec struct {
 	locks         map[*Val]int // mutex cell -> 0 free, 1 write-held, n>1: n-1 readers (encoded as -(n))
 	mapRangeSites map[string]bool
 
+	doms      map[string]*byteDom
+	entangled map[string]bool
+	uniMemo   map[*Term]*uniInfo
+	DomDecided int
+
 	needModelAfterPrefix bool
 	lockMonitorOn        bool
 	trackedObjs          []*tracked
@@ -292,6 +306,7 @@ type Exec struct {
 	funcs      map[string]string
 	sampleDone bool
 	samples    []map[string]string
+	sampleModels []SampleModel
 	extraNotes map[string]int
 }
 
@@ -364,6 +379,7 @@ func (ex *Exec) addPC(c *Term) {
 		return
 	}
 	ex.pc = append(ex.pc, c)
+	ex.noteConstraint(c)
 }
 
 func (ex *Exec) flushPC() {
@@ -391,6 +407,23 @@ func (ex *Exec) branch(c *Term) bool {
 	if c.IsConst() {
 		return c.Val == 1
 	}
+	// byte-domain shortcut (see domain.go)
+	var domT, domF byteDom
+	domSplit := false
+	if u := uniVar(c, ex.uniMemo); !u.multi && u.v != nil && u.v.W == 8 {
+		domT, domF = ex.splitDom(c, u.v)
+		if domF.empty() && !domT.empty() {
+			ex.DomDecided++
+			return true
+		}
+		if domT.empty() && !domF.empty() {
+			ex.DomDecided++
+			return false
+		}
+		if !ex.entangled[u.v.Name] && !domT.empty() {
+			domSplit = true
+		}
+	}
 	if ex.inPrefix() {
 		d := ex.prefix[ex.pos]
 		ex.pos++
@@ -403,6 +436,28 @@ func (ex *Exec) branch(c *Term) bool {
 		return d == 1
 	}
 	ex.live()
+	if domSplit {
+		// both sides feasible; models differ only in this variable
+		name := uniVar(c, ex.uniMemo).v.Name
+		ex.DomDecided++
+		mv := ex.evalModel(c) == 1
+		alt := make([]int64, len(ex.trace)+1)
+		copy(alt, ex.trace)
+		am := ex.copyModel()
+		if mv {
+			alt[len(ex.trace)] = 0
+			am[name] = domF.first()
+			ex.trace = append(ex.trace, 1)
+			ex.addPC(c)
+		} else {
+			alt[len(ex.trace)] = 1
+			am[name] = domT.first()
+			ex.trace = append(ex.trace, 0)
+			ex.addPC(Not(c))
+		}
+		ex.eng.push(&pending{prefix: alt, model: am})
+		return mv
+	}
 	mv := ex.evalModel(c) == 1
 	var other *Term
 	if mv {
@@ -542,7 +597,7 @@ func (ex *Exec) copyModel() map[string]uint64 {
 
 func (ex *Exec) addViolation(kind, id, msg string, model map[string]uint64) {
 	v := Violation{Kind: kind, ID: id, Msg: msg, Site: ex.site(ex.cur), Stack: ex.stack(),
-		Model: map[string]uint64{}, Harness: ex.eng.Cfg.Harness, Pkg: ex.eng.Cfg.Pkg, Notes: map[string]string{}}
+		Model: map[string]uint64{}, Harness: ex.eng.Cfg.Harness, Pkg: ex.eng.Cfg.Pkg, Notes: map[string]string{}, Bounds: ex.eng.Cfg.Bounds}
 	for name := range ex.vars {
 		v.Model[name] = model[name]
 	}
@@ -808,6 +863,7 @@ func (eng *Engine) Run(cfg Config) (*Report, error) {
 func (rep *Report) merge(ex *Exec) {
 	rep.Paths++
 	rep.Steps += int64(ex.steps)
+	rep.DomDecided += ex.DomDecided
 	rep.Violations = append(rep.Violations, ex.violations...)
 	for _, s := range ex.incon {
 		rep.Inconclusive[s]++
@@ -839,6 +895,17 @@ func (rep *Report) merge(ex *Exec) {
 	if len(rep.Samples) < 12 {
 		rep.Samples = append(rep.Samples, ex.samples...)
 	}
+	for _, sm := range ex.sampleModels {
+		n := 0
+		for _, o := range rep.SampleModels {
+			if o.Reach == sm.Reach {
+				n++
+			}
+		}
+		if n < 3 {
+			rep.SampleModels = append(rep.SampleModels, sm)
+		}
+	}
 }
 
 // runPath executes the harness once along the decision prefix of p.
@@ -854,7 +921,8 @@ func (eng *Engine) newExec(solver *Solver, p *pending) *Exec {
 		globals: map[*ssa.Global]*Val{}, initDone: map[*ssa.Package]bool{},
 		onceDone: map[*Val]bool{}, notes: map[string]string{},
 		asserts: map[string]*AssertStat{}, reach: map[string]int{}, funcs: map[string]string{},
-		mapRangeSites: map[string]bool{}, extraNotes: map[string]int{}, locks: map[*Val]int{}}
+		mapRangeSites: map[string]bool{}, extraNotes: map[string]int{}, locks: map[*Val]int{},
+		doms: map[string]*byteDom{}, entangled: map[string]bool{}, uniMemo: map[*Term]*uniInfo{}}
 	if ex.model == nil {
 		ex.model = map[string]uint64{}
 	}
@@ -888,7 +956,7 @@ func (eng *Engine) runExec(ex0 *Exec, p *pending) (ex *Exec) {
 				msg = "panic: " + ex.panicText(r.v)
 			}
 			v := Violation{Kind: "panic", ID: "no-panic", Msg: msg, Site: r.site,
-				Model: map[string]uint64{}, Harness: eng.Cfg.Harness, Pkg: eng.Cfg.Pkg, Notes: map[string]string{}}
+				Model: map[string]uint64{}, Harness: eng.Cfg.Harness, Pkg: eng.Cfg.Pkg, Notes: map[string]string{}, Bounds: eng.Cfg.Bounds}
 			if len(ex.faults) > 0 && r.fault != "" {
 				v.Stack = ex.faults[len(ex.faults)-1].Stack
 			}
